@@ -1,11 +1,13 @@
-// C13 round 2 — boundary coordinate pairs: 8-bit (every value) and int16_t coordinates (see C13_pairs.hh).
+// C13 round 2 — boundary coordinate pairs: 8-bit and int16_t coordinates (see C13_pairs.hh).
 #include "C13_pairs.hh"
 using namespace c13;
 VF_SECTION(pairs_8_16, 16, 16, 120) {
   bool th = r.thorough();
+  (void)th;
   std::string b;
-  run_pairs<Vector2<int8_t>>(r, boundary_alphabet<int8_t>(), th ? 2 : 1, b);
-  run_pairs<Vector2<uint8_t>>(r, boundary_alphabet<uint8_t>(), th ? 2 : 1, b);
+  // 8-bit: quick uses the boundary alphabet like every other width, thorough every value of the type
+  run_pairs<Vector2<int8_t>>(r, th ? all_values<int8_t>() : boundary_alphabet<int8_t>(), 2, b);
+  run_pairs<Vector2<uint8_t>>(r, th ? all_values<uint8_t>() : boundary_alphabet<uint8_t>(), 2, b);
   run_pairs<Vector2<int16_t>>(r, boundary_alphabet<int16_t>(), th ? 4 : 2, b);
-  r.bound = "every ordered pair (a,b) of the boundary alphabet (2^k-1, 2^k, 2^k+1 for every k up to the width, their negatives, 0, the limits; 8-bit: all 256 values) as the two coordinate values of a 4-point tree: " + b;
+  r.bound = "every ordered pair (a,b) of the boundary alphabet (2^k-1, 2^k, 2^k+1 for every k up to the width, their negatives, 0, the limits; 8-bit in the thorough tier: all 256 values) as the two coordinate values of a 4-point tree: " + b;
 }
